@@ -83,13 +83,14 @@ Fixpoint http_extract_trailers (known : list bytes) (h : hdrs) : hdrs * hdrs :=
       else (t, (k, vs) :: rest)
   end.
 
-(** httpMergeTrailers(header, trailer) *)
+(** httpMergeTrailers(header, trailer): the given values replace whatever is there for the
+    same trailer, prefixed or plain *)
 Fixpoint http_merge_trailers (h : hdrs) (t : hdrs) : hdrs :=
   match t with
   | [] => h
   | (k, vs) :: r =>
-      let k' := if is_prefix trailer_prefix k then k else trailer_prefix ++ k in
-      http_merge_trailers (fold_left (fun acc v => hadd k' v acc) vs h) r
+      let plain := strip_prefix trailer_prefix k in
+      http_merge_trailers (hput (trailer_prefix ++ plain) vs (hdel plain h)) r
   end.
 
 (** connectExtractUnaryTrailers: keys with prefix "Trailer-" *)
